@@ -24,8 +24,13 @@ Fail(e)  == [ok |-> FALSE, err |-> e]      \* e: exception class raised by the f
 
 ---------------------------------------------------------------------------
 (* field descriptors *)
+\* environment settings of fields and schemas: None / True / False / "NAME"
+EnvInherit == [m |-> "inherit"]
+EnvAuto    == [m |-> "auto"]
+EnvOff     == [m |-> "off"]
+EnvName(n) == [m |-> "name", n |-> n]      \* n: character sequence
 Common == [required |-> FALSE, default |-> NoneV, sensitive |-> FALSE, fname |-> "",
-           env |-> "inherit", fval |-> "none"]      \* fval: custom field validator (catalogue name)
+           env |-> EnvInherit, fval |-> "none"]      \* fval: custom field validator (catalogue name)
 
 StrOpts == [minlen |-> -1, maxlen |-> -1, regex |-> "none", choices |-> <<>>,
             tcase |-> "none", stripm |-> "none", stripcs |-> {}]
